@@ -477,3 +477,158 @@ Proof.
   pose proof (close_propagates_bounded W Hall st Hr) as H5. cbv zeta in H5.
   split; [exact H1|]. split; [exact H2|]. split; [exact H3|]. split; [exact H4|exact H5].
 Qed.
+
+(* ---------- 5. end to end: two Joins linked by the transport ---------- *)
+
+Lemma closeB_keeps W st :
+  j_peerA (close_B W st) = j_peerA st /\ j_peerB (close_B W st) = j_peerB st /\
+  j_x (close_B W st) = j_x st /\ j_y (close_B W st) = j_y st.
+Proof. unfold close_B. destruct (close_stack W (j_flags st) (j_calls st)) as [[? ?] ?]. cbn. auto. Qed.
+
+Lemma trig_x st : j_x st <> JCopy -> j_triggered st = true.
+Proof. unfold j_triggered. destruct (j_x st); [congruence| | |]; intros _; destruct (j_peerA st), (j_peerB st); reflexivity. Qed.
+Lemma trig_y st : j_y st <> JCopy -> j_triggered st = true.
+Proof.
+  unfold j_triggered. destruct (j_y st); [congruence| | |]; intros _;
+    destruct (j_peerA st), (j_peerB st), (j_x st); reflexivity.
+Qed.
+Lemma trig_peerB st : j_peerB st = true -> j_triggered st = true.
+Proof. unfold j_triggered. intros ->. destruct (j_peerA st); reflexivity. Qed.
+
+Lemma triggered_step W st e : j_triggered st = true -> j_triggered (j_step W st e) = true.
+Proof.
+  intros H. destruct (closeB_keeps W st) as (K1 & K2 & K3 & K4).
+  destruct e; unfold j_step.
+  - unfold j_triggered. reflexivity.
+  - apply trig_peerB. reflexivity.
+  - destruct (x_enabled st); [|exact H].
+    destruct (j_x st) eqn:Ex; try (apply trig_x; cbn; discriminate). exact H.
+  - destruct (y_enabled st); [|exact H].
+    destruct (j_y st) eqn:Ey; try (apply trig_y; cbn; discriminate). exact H.
+Qed.
+
+Lemma triggered_run W : forall l st, j_triggered st = true -> j_triggered (j_run W l st) = true.
+Proof. induction l as [|e l IH]; intros st H; cbn; [exact H|]. apply IH, triggered_step, H. Qed.
+
+Lemma done_step W st e : j_all_done st = true ->
+  j_all_done (j_step W st e) = true /\ j_baseA (j_step W st e) = j_baseA st /\ j_baseB (j_step W st e) = j_baseB st.
+Proof.
+  unfold j_all_done. destruct (j_x st) eqn:Ex; try discriminate. destruct (j_y st) eqn:Ey; try discriminate. intros _.
+  destruct e; unfold j_step, x_enabled, y_enabled; rewrite ?Ex, ?Ey; cbn; rewrite ?Ex, ?Ey; auto.
+Qed.
+
+Lemma done_run W : forall l st, j_all_done st = true ->
+  j_all_done (j_run W l st) = true /\ j_baseA (j_run W l st) = j_baseA st /\ j_baseB (j_run W l st) = j_baseB st.
+Proof.
+  induction l as [|e l IH]; intros st H; cbn; [auto|].
+  destruct (done_step W st e H) as (H1 & H2 & H3). destruct (IH _ H1) as (G1 & G2 & G3).
+  unfold j_run in *. rewrite G2, G3. auto.
+Qed.
+
+Lemma reachable_step W st e : reachable W st -> reachable W (j_step W st e).
+Proof. intros [s ->]. exists (s ++ [e]). unfold j_run. rewrite fold_left_app. reflexivity. Qed.
+
+Lemma reachable_run W : forall l st, reachable W st -> reachable W (j_run W l st).
+Proof. induction l as [|e l IH]; intros st H; cbn; [exact H|]. apply IH, reachable_step, H. Qed.
+
+Definition e2e_reach (Ws Wc : list sk_close) (st : e2e) : Prop := reachable Ws (e_srv st) /\ reachable Wc (e_cli st).
+
+Lemma e2e_reach_step sig Ws Wc st e : e2e_reach Ws Wc st -> e2e_reach Ws Wc (e2e_step sig Ws Wc st e).
+Proof.
+  intros [Hs Hc]. destruct e; unfold e2e_step, e2e_reach; cbn [e_srv e_cli];
+    try (split; [try apply reachable_step; assumption|try apply reachable_step; assumption]).
+  destruct sig; [|split; assumption]. cbn [e_srv e_cli]. split.
+  - destruct (0 <? j_baseB (e_cli st)); [apply reachable_step|]; assumption.
+  - destruct (0 <? j_baseB (e_srv st)); [apply reachable_step|]; assumption.
+Qed.
+
+Lemma e2e_reach_run sig Ws Wc : forall l st, e2e_reach Ws Wc st -> e2e_reach Ws Wc (e2e_run sig Ws Wc l st).
+Proof. induction l as [|e l IH]; intros st H; cbn; [exact H|]. apply IH, e2e_reach_step, H. Qed.
+
+Lemma e2e_reach_init Ws Wc : e2e_reach Ws Wc (e2e_init Ws Wc).
+Proof. split; exists []; reflexivity. Qed.
+
+Lemma run_srv_drain sig Ws Wc st :
+  e2e_run sig Ws Wc srv_drain st = {| e_srv := j_run Ws j_drain (e_srv st); e_cli := e_cli st |}.
+Proof. unfold e2e_run, srv_drain, j_run, j_drain. cbn [fold_left e2e_step e_srv e_cli]. reflexivity. Qed.
+Lemma run_cli_drain sig Ws Wc st :
+  e2e_run sig Ws Wc cli_drain st = {| e_srv := e_srv st; e_cli := j_run Wc j_drain (e_cli st) |}.
+Proof. unfold e2e_run, cli_drain, j_run, j_drain. cbn [fold_left e2e_step e_srv e_cli]. reflexivity. Qed.
+
+Definition e2e_closed (st : e2e) : Prop :=
+  j_all_done (e_srv st) = true /\ j_all_done (e_cli st) = true /\
+  1 <= j_baseA (e_srv st) /\ 1 <= j_baseB (e_srv st) /\ 1 <= j_baseA (e_cli st) /\ 1 <= j_baseB (e_cli st).
+
+(* close propagation end to end, PARTIAL: over a transport with close signalling, from any reachable
+   state of the two Joins in which a direction has ended on either side (user closed, backend closed,
+   ...), a bounded number of steps closes the user connection, both ends of the work connection and the
+   backend connection, and ends both Joins *)
+Theorem e2e_close_partial : forall Ws Wc, all_inner Ws = true -> all_inner Wc = true ->
+  forall sched, let st := e2e_run true Ws Wc sched (e2e_init Ws Wc) in
+  j_triggered (e_srv st) = true \/ j_triggered (e_cli st) = true ->
+  e2e_closed (e2e_run true Ws Wc e2e_drain st).
+Proof.
+  intros Ws Wc Hs Hc sched st Ht.
+  assert (Hreach : e2e_reach Ws Wc st) by (apply e2e_reach_run, e2e_reach_init).
+  clearbody st. destruct Hreach as [Rs Rc].
+  unfold e2e_drain, e2e_run. rewrite !fold_left_app.
+  fold (e2e_run true Ws Wc srv_drain st). rewrite run_srv_drain.
+  set (srv1 := j_run Ws j_drain (e_srv st)).
+  assert (R1 : reachable Ws srv1) by (apply reachable_run, Rs).
+  cbn [fold_left e2e_step e_srv e_cli].
+  set (srv2 := if 0 <? j_baseB (e_cli st) then j_step Ws srv1 EvPeerB else srv1).
+  set (cli2 := if 0 <? j_baseB srv1 then j_step Wc (e_cli st) EvPeerB else e_cli st).
+  assert (R2s : reachable Ws srv2) by (unfold srv2; destruct (0 <? j_baseB (e_cli st)); [apply reachable_step|]; exact R1).
+  assert (R2c : reachable Wc cli2) by (unfold cli2; destruct (0 <? j_baseB srv1); [apply reachable_step|]; exact Rc).
+  assert (T2 : j_triggered cli2 = true).
+  { destruct Ht as [Ht|Ht].
+    - destruct (close_propagates_bounded Ws Hs (e_srv st) Rs Ht) as (_ & _ & Hb). fold srv1 in Hb.
+      unfold cli2. assert (E : (0 <? j_baseB srv1) = true) by (apply Z.ltb_lt; lia). rewrite E.
+      apply trig_peerB. reflexivity.
+    - unfold cli2. destruct (0 <? j_baseB srv1); [apply triggered_step|]; exact Ht. }
+  fold (e2e_run true Ws Wc cli_drain {| e_srv := srv2; e_cli := cli2 |}). rewrite run_cli_drain. cbn [e_srv e_cli].
+  set (cli3 := j_run Wc j_drain cli2).
+  destruct (close_propagates_bounded Wc Hc cli2 R2c T2) as (D3 & A3 & B3). fold cli3 in D3, A3, B3.
+  cbn [fold_left e2e_step e_srv e_cli].
+  assert (E3 : (0 <? j_baseB cli3) = true) by (apply Z.ltb_lt; lia). rewrite E3.
+  set (srv4 := j_step Ws srv2 EvPeerB).
+  set (cli4 := if 0 <? j_baseB srv2 then j_step Wc cli3 EvPeerB else cli3).
+  assert (R4 : reachable Ws srv4) by (apply reachable_step, R2s).
+  assert (T4 : j_triggered srv4 = true) by (apply trig_peerB; reflexivity).
+  assert (D4 : j_all_done cli4 = true /\ j_baseA cli4 = j_baseA cli3 /\ j_baseB cli4 = j_baseB cli3).
+  { unfold cli4. destruct (0 <? j_baseB srv2); [apply done_step, D3|auto]. }
+  fold (e2e_run true Ws Wc srv_drain {| e_srv := srv4; e_cli := cli4 |}). rewrite run_srv_drain. cbn [e_srv e_cli].
+  destruct (close_propagates_bounded Ws Hs srv4 R4 T4) as (D5 & A5 & B5).
+  destruct D4 as (D4 & A4 & B4).
+  unfold e2e_closed. cbn [e_srv e_cli]. repeat split; try assumption; lia.
+Qed.
+
+(* ... and REFUTED without close signalling (kcp without tcpMux): whatever happens on the user's side and
+   in frps, for every schedule in which the backend itself does not close, frpc's Join stays in its
+   initial state: the backend connection is never closed *)
+Theorem e2e_close_nosignal_refuted_cli : forall Ws Wc sched, forallb not_backend_close sched = true ->
+  e_cli (e2e_run false Ws Wc sched (e2e_init Ws Wc)) = j_init Wc.
+Proof.
+  intros Ws Wc sched. unfold e2e_run.
+  assert (G : forall st, e_cli st = j_init Wc -> forallb not_backend_close sched = true ->
+              e_cli (fold_left (e2e_step false Ws Wc) sched st) = j_init Wc).
+  { induction sched as [|e l IH]; intros st H Hf; cbn [fold_left]; [exact H|].
+    cbn [forallb] in Hf. apply andb_prop in Hf. destruct Hf as [He Hl].
+    apply IH; [|exact Hl].
+    destruct e; cbn [e2e_step e_cli]; try exact H; try discriminate; rewrite H; reflexivity. }
+  intros Hf. apply G; [reflexivity|exact Hf].
+Qed.
+
+(* symmetric: if the backend closes, the user connection is never closed by frps *)
+Theorem e2e_close_nosignal_refuted_srv : forall Ws Wc sched, forallb not_user_close sched = true ->
+  e_srv (e2e_run false Ws Wc sched (e2e_init Ws Wc)) = j_init Ws.
+Proof.
+  intros Ws Wc sched. unfold e2e_run.
+  assert (G : forall st, e_srv st = j_init Ws -> forallb not_user_close sched = true ->
+              e_srv (fold_left (e2e_step false Ws Wc) sched st) = j_init Ws).
+  { induction sched as [|e l IH]; intros st H Hf; cbn [fold_left]; [exact H|].
+    cbn [forallb] in Hf. apply andb_prop in Hf. destruct Hf as [He Hl].
+    apply IH; [|exact Hl].
+    destruct e; cbn [e2e_step e_srv]; try exact H; try discriminate; rewrite H; reflexivity. }
+  intros Hf. apply G; [reflexivity|exact Hf].
+Qed.
